@@ -16,6 +16,7 @@
 //!  11  Sendpoint Ndir ((Sval Nkind)..) hist (Nv..) Nscheme Nvariant Stoken
 //!                                 request / response through the generated conversions and back
 //!  12  hist                       VersionHistory::new -> ( 0 N1 ) | ( 2 )
+//!  13  Sendpoint Swhich json     JSON body through the generated conversions and back (c16_bodies.rs)
 use std::fmt::Debug;
 
 use http::Method;
@@ -707,6 +708,7 @@ pub fn replay(case: &Sx) -> Option<Sx> {
     };
     let in_range = |vs: &[usize]| vs.iter().all(|v| *v < all.len());
     match op {
+        13 => crate::c16_bodies::replay(l.get(1)?, l.get(2)?, l.get(3)?),
         1 => {
             let h = hist(1)?;
             if l.get(2)?.as_int()? != all.len() as i128 {
@@ -991,6 +993,7 @@ fn gen_query(r: &mut Rng) -> String {
 }
 
 pub fn run(tier: &str, seed: u64, em: &mut Emitter) {
+    crate::c16_bodies::run(tier, seed, em);
     let thorough = tier == "thorough";
     let all = versions();
     let n = all.len();
